@@ -108,6 +108,7 @@ type scConn struct {
 	bad  string // ok broken closed
 	tx   bool
 	ac0  bool
+	more bool // the last statement's result has more rows to fetch (streamed result)
 	got  int // cmdSeq of the command that took it from the pool
 	used bool // a statement was sent on it since it was taken
 }
@@ -153,6 +154,7 @@ type scWorld struct {
 	used     [][3]int // slice, conn, inTx(0/1)
 	ended    map[int]bool
 	firstGetSlice int
+	streamNext    bool   // armed: the next successful statement reports MoreRowsExist (its result is streamed)
 	midReload     func() // armed: called (once) at the command's first backend statement
 	midChange     bool   // a reload happened during the current command
 }
@@ -612,6 +614,11 @@ func (c *scConn) do(op string) error {
 	}
 	if op == "exec" {
 		c.used = true
+		c.more = w.streamNext
+		w.streamNext = false
+	}
+	if op == "fetch" {
+		c.more = false
 	}
 	w.monOp(c, op, true)
 	return nil
@@ -623,6 +630,9 @@ func (c *scConn) Recycle() {
 	defer w.mu.Unlock()
 	if !w.monPut(c) {
 		return
+	}
+	if c.more { // pooledConnectImpl.Recycle closes a connection that still has rows to fetch
+		c.bad, c.tx, c.more = "closed", false, false
 	}
 	if c.bad == "ok" {
 		c.st = "pool"
@@ -711,9 +721,21 @@ func (c *scConn) SyncSessionVariables(frontend *mysql.SessionVariables) error { 
 func (c *scConn) WriteSetStatement() error                                    { return nil }
 func (c *scConn) GetConnectionID() int64                                      { return int64(c.id) }
 func (c *scConn) GetReturnTime() time.Time                                    { return time.Time{} }
-func (c *scConn) MoreRowsExist() bool                                         { return false }
+func (c *scConn) MoreRowsExist() bool {
+	c.w.mu.Lock()
+	defer c.w.mu.Unlock()
+	return c.more
+}
 func (c *scConn) MoreResultsExist() bool                                      { return false }
-func (c *scConn) FetchMoreRows(result *mysql.Result, maxRows int) error       { return nil }
+func (c *scConn) FetchMoreRows(result *mysql.Result, maxRows int) error {
+	err := c.do("fetch")
+	if err != nil {
+		c.w.mu.Lock()
+		c.more = false
+		c.w.mu.Unlock()
+	}
+	return err
+}
 func (c *scConn) ReadMoreResult(maxRows int) (*mysql.Result, error)           { return nil, nil }
 
 // ---------------------------------------------------------------------------------------------
@@ -1064,6 +1086,7 @@ var scSQL = map[string][]string{
 	"setac0":   {"set autocommit=0", "SET autocommit = off", "set @@autocommit = 0"},
 	"setac1":   {"set autocommit=1", "SET autocommit = on", "set @@session.autocommit = 1"},
 	"u-read":   {"select * from t1 where id = 1", "select id, a from t1", "SELECT count(*) FROM t1 WHERE a > 3", "show tables"},
+	"u-stream": {"select * from t1", "select id, a from t1 where a > 0"},
 	"u-write":  {"insert into t1 (id, a) values (1, 2)", "update t1 set a = 1 where id = 2", "delete from t1 where id = 3"},
 	"u-lock":   {"select * from t1 where id = 1 for update", "select * from t1 where id = 2 lock in share mode"},
 	"u-master": {"/*master*/ select * from t1 where id = 1", "select /*master*/ id from t1"},
@@ -1100,6 +1123,8 @@ func scConcrete(c *scCmd, user string, r *rand.Rand) (byte, []byte) {
 			return mysql.ComQuery, []byte(scPick(r, "u-read"))
 		case "lockread":
 			return mysql.ComQuery, []byte(scPick(r, "u-lock"))
+		case "stream":
+			return mysql.ComQuery, []byte(scPick(r, "u-stream"))
 		default: // "write": anything that has to go to the master for this user
 			if user == "rw" {
 				return mysql.ComQuery, []byte(scPick(r, "u-write", "u-lock", "u-master", "u-read"))
@@ -1294,6 +1319,7 @@ func scReplayOnce(m *Manager, cs *scCase, tid int, r *rand.Rand) (res scReplayRe
 		cmd, data := scConcrete(c, cs.User, r)
 		w.mu.Lock()
 		w.fault, w.fired = nil, false
+		w.streamNext = c.K == "unshard" && c.Kind == "stream"
 		if c.F.Op != "none" && c.F.Op != "" {
 			f := c.F
 			w.fault = &f
@@ -1309,7 +1335,7 @@ func scReplayOnce(m *Manager, cs *scCase, tid int, r *rand.Rand) (res scReplayRe
 		ok := s.iteration(c.K, c.Sl, cmd, data)
 		w.mu.Lock()
 		missed := w.fault != nil || w.midReload != nil
-		w.fault, w.midReload = nil, nil
+		w.fault, w.midReload, w.streamNext = nil, nil, false
 		first := w.firstGetSlice
 		w.mu.Unlock()
 		if c.Ord && first >= 0 && first != c.First && !diverged {
@@ -1339,7 +1365,8 @@ func scReplayOnce(m *Manager, cs *scCase, tid int, r *rand.Rand) (res scReplayRe
 				} else {
 					prop := "C19"
 					for _, f := range d {
-						if f == "autocommit" || f == "inTrans" || f == "used" || ((f == "held" || f == "txConns") && (c.K == "commit" || c.K == "rollback" || c.K == "setac1")) {
+						if f == "autocommit" || f == "inTrans" || f == "used" || ((f == "held" || f == "txConns") && (c.K == "commit" || c.K == "rollback" || c.K == "setac1")) ||
+							(f == "held" && w.cmdMode == "tx") { // inside a transaction the held connections are the transaction's
 							prop = "C18"
 						}
 					}
